@@ -150,6 +150,13 @@ pub enum Surgery {
     /// shared / private / "all" point numbers, byte or word or zero delta runs - and a `cvt `
     /// table of `num_cvts` values if the font has none.
     InstallCvar { num_cvts: u16, variant: u64 },
+    /// TrueType variable font (none under tests/ has a composite glyph): rewrite glyph `glyph`
+    /// in place as a composite of the simple glyphs `a` and `b` (byte or word XY offsets, optionally
+    /// a scale, by `variant`) and its `gvar` data, in place as well, as one tuple variation with an
+    /// embedded peak on one axis and deltas for the two component offsets and the four phantom
+    /// points (`dx`, `dy` for the first component: chosen so that an instance can push one offset
+    /// out of the int8 range and not the other).
+    InstallVarComposite { glyph: u16, a: u16, b: u16, dx: i16, dy: i16, variant: u64 },
     /// Re-pack `hmtx` with only `num_h_metrics` long metrics (glyphs after that take the last
     /// advance and keep their side bearing) and update `hhea`. Every corpus CFF2 font and most
     /// others have numberOfHMetrics == numGlyphs, which hides the compact form from the writers.
